@@ -129,9 +129,19 @@ def mesh_histories(tier, rng, recs, n0):
                     dl2 = R2.T @ dw
                     n += 1; recs.append(support_record(f"s{n}", s, unit, R2, t2, dl2, mesh, "MeshGraph", False, tier=2))
     # large meshes: long walks; antipodal and nearby direction sequences on one object
-    nbig = 4 if tier == "quick" else 12
+    nbig = 5 if tier == "quick" else 15
     for b in range(nbig):
-        if b % 2 == 0:
+        ring = False
+        if b % 5 == 4:
+            # double cone over an antiprism ring: the six axis-extreme shortcut vertices are an eighth of the ring away from the
+            # extreme vertex of a diagonal direction - hundreds of single steps along the ring
+            ring = True
+            nr = 1000 if tier == "quick" else rng.choice((1000, 2400))
+            ang = 2.0 * math.pi * np.arange(nr) / nr
+            ra = np.column_stack((10.0 * np.cos(ang), 10.0 * np.sin(ang), np.full(nr, 0.05)))
+            rb = np.column_stack((10.0 * np.cos(ang + math.pi / nr), 10.0 * np.sin(ang + math.pi / nr), np.full(nr, -0.05)))
+            pts = np.vstack((ra, rb, [[0.0, 0.0, 5.0]], [[0.0, 0.0, -5.0]]))
+        elif b % 2 == 0:
             npts = rng.choice((400, 1500, 5000)) if tier == "quick" else rng.choice((400, 1500, 6000, 12000))
             pts = np.array([[rng.gauss(0, 1) for _ in range(3)] for _ in range(npts)])
             pts /= np.linalg.norm(pts, axis=1)[:, None]
@@ -161,7 +171,10 @@ def mesh_histories(tier, rng, recs, n0):
         far = Vb[int(np.argmax(np.linalg.norm(Vb, axis=1)))]          # the longest half axis of the mesh (mesh frame)
         for q in range(30 if tier == "quick" else 100):
             mode = rng.choice(("anti", "near", "rand", "axis"))
-            if q < 2:
+            if ring and q < 8:
+                a = math.pi / 4 + q * math.pi / 2 + (0.0 if q < 4 else 0.3)       # diagonal directions in the ring plane
+                d = R @ np.array([math.cos(a), math.sin(a), 0.0])
+            elif q < 2:
                 d = R @ (far if q == 0 else -far)          # from one end of the mesh to the other: the longest walk of the graph
             elif mode == "anti":
                 d = -d
